@@ -1158,7 +1158,7 @@ def gen_m_call(g, gs, cfg, mid, force_method=None):
                 a["n"] = g.randint(1, 10)
         else:
             if g.random() < 0.95:
-                a["n"] = g.randint(1, cfg["nmax"])      # else: the default sample size
+                a["n"] = g.randint(1, cfg["nmax"]) if g.random() < 0.98 else 0      # else: the default sample size
             rec["seed"] = g.choice(seeds + [None])
         if invalid:
             kind = g.choice(["do", "shift", "noise"])
